@@ -279,6 +279,11 @@ def applyAddOptions (w : Watcher) : List (String × JVal) → Option Watcher
     | some w' => applyAddOptions w' rest
     | none => none
 
+/-- `add_watcher`: the new object, the list entry and the dict entry -/
+def registerWatcher (w : Watcher) (key : String) : M Unit :=
+  modS fun s => { s with ws := s.ws ++ [w],
+                         a := { s.a with watchers := s.a.watchers ++ [w.uid], names := s.a.names ++ [(key, w.uid)] } }
+
 def execAdd (props : JVal) : M (R ExecRes) := do
   let opts := match props.get? "options" with | some (.obj kvs) => kvs | _ => []
   let r ← syncPlain "arbiter_add_watcher" (do
@@ -294,8 +299,7 @@ def execAdd (props : JVal) : M (R ExecRes) := do
           if w.singleton && !(w.np = 0 || w.np = 1) then pure (.error (.other "ValueError")) else
           let uid ← freshId
           let w := { w with uid := uid }
-          modS fun s => { s with ws := s.ws ++ [w] }
-          modA fun a => { a with watchers := a.watchers ++ [uid], names := a.names ++ [(pyLower name, uid)] }
+          registerWatcher w (pyLower name)
           notify uid "add" none
           pure (.ok uid)
     | _ => pure (.error (.other "AttributeError")))
@@ -406,11 +410,13 @@ def errnoOf : Exc → String
   | .other _ => "5"
   | .noSuchProcess => "5"
 
+def clearDone : M Unit := modS fun s => { s with doneVals := [] }
+
 /-- `future.add_done_callback(cb)`: attached when pending, otherwise scheduled on the ready queue -/
 def addDoneCallback (tid : Nat) (cb : TopCb) : M Unit := do
   let s ← getS
   if (s.tops.find? (·.tid = tid)).isSome then
-    modS fun s => { s with tops := s.tops.map fun t => if t.tid = tid then { t with cbs := t.cbs ++ [cb] } else t }
+    topAddCb tid cb
   else
     enqueue (.topCb cb ((s.doneVals.lookup tid).getD .unit))
 
@@ -430,7 +436,7 @@ def handleMessage (cid : Option String) (msg : Option JVal) : M Unit := do
       if !props.isObj then sendReply cid mid cast "error" "3" "-" else
       let waiting := ((props.get? "waiting").map truthy).getD false
       -- results of futures that complete synchronously are remembered through `doneVal`
-      modS fun s => { s with doneVals := [] }
+      clearDone
       let r ← validateExecute cmd props
       match r with
       | .error e => sendReply cid mid cast "error" (errnoOf e) "-"
@@ -455,6 +461,8 @@ def sigQuit : M Unit := do
     addSleeper 100 (.frame fid 0)
   else handleMessage none (some (.obj [("command", .str "quit"), ("properties", .obj [])]))
 
+def dequeue : M Unit := modS fun s => { s with ready := s.ready.tail }
+
 /-- one entry of the ready queue -/
 def runReady1 (rec : Rec) : Ready → M Unit
   | .resume k v w => rec (.resume k v w)
@@ -469,8 +477,8 @@ def settle : Nat → M Unit
     if s.blocked then ((), s) else
     match s.ready with
     | [] => ((), s)
-    | r :: rest =>
-      let s1 := { s with ready := rest }
+    | r :: _ =>
+      let (_, s1) := dequeue s
       let (_, s2) := runReady1 (exec 100000) r s1
       settle fuel s2
 
